@@ -33,6 +33,7 @@ import (
 	"reflect"
 	"runtime"
 	"sort"
+	"strings"
 	"sync"
 	"time"
 
@@ -62,6 +63,7 @@ import (
 	"github.com/NVIDIA/KAI-scheduler/pkg/binder/controllers"
 	binderplugins "github.com/NVIDIA/KAI-scheduler/pkg/binder/plugins"
 	commonconsts "github.com/NVIDIA/KAI-scheduler/pkg/common/constants"
+	"github.com/NVIDIA/KAI-scheduler/pkg/common/resources"
 	"github.com/NVIDIA/KAI-scheduler/pkg/scheduler/actions"
 	schedcache "github.com/NVIDIA/KAI-scheduler/pkg/scheduler/cache"
 	"github.com/NVIDIA/KAI-scheduler/pkg/scheduler/conf"
@@ -82,6 +84,7 @@ const (
 	nodeMilliCPU  = 8000
 	podMilliCPU   = 1000
 	syncTimeout   = 60 * time.Second // failure detector only
+	memSlots      = 8                // slots of the per-group memory vector in the snapshot projection
 )
 
 type step struct {
@@ -93,7 +96,9 @@ type step struct {
 type scenario struct {
 	ID      string         `json:"id"`
 	Lim     int            `json:"lim"`
-	Req     map[string]int `json:"req"`
+	Gpus    int            `json:"gpus"` // GPU devices of the node
+	Req     map[string]int `json:"req"`  // centi-GPU per device: 100 = one whole GPU, < 100 = fraction
+	Nd      map[string]int `json:"nd"`   // devices of a fractional pod (2 = gpu-fraction-num-devices: 2)
 	Present []string       `json:"present"`
 	Steps   []step         `json:"steps"`
 }
@@ -123,6 +128,11 @@ type world struct {
 	// fault injection for the reconcile in flight
 	failBind        bool
 	failStatusPatch bool
+	failReserveAt   int  // the n-th ReserveGpuDevice call of the reconcile fails (0 = none)
+	failRollback    bool // RemovePodGpuGroupsConnection fails: labels written so far stay on the pod
+	crashAfterLabel bool // the binder dies right after the next label patch that adds a group
+	dead            bool // ... from then on nothing reaches the store
+	reserveCalls    int
 	// observations of the reconcile in flight
 	bindCalled, bindFailed, getFailed bool
 
@@ -134,7 +144,10 @@ type world struct {
 	att             map[string]int  // binding sub-resource calls of the current incarnation
 	fl              map[string]int  // failed reconciles of the current incarnation
 	restarts, flips int
+	leaks           int
+	draining        bool
 	barriers        int
+	slotOf          map[string]int // GPU group id -> abstract slot (smallest slot not referenced in the store when first seen)
 
 	watchMu  sync.Mutex
 	watching map[string]bool
@@ -143,7 +156,7 @@ type world struct {
 func int32p(v int32) *int32 { return &v }
 
 func newWorld(sc scenario, pods []string) *world {
-	w := &world{sc: sc, pods: pods, watching: map[string]bool{}, lastUID: map[string]types.UID{}, created: map[string]int{}, q: map[string]bool{}, att: map[string]int{}, fl: map[string]int{}}
+	w := &world{sc: sc, pods: pods, watching: map[string]bool{}, slotOf: map[string]int{}, lastUID: map[string]types.UID{}, created: map[string]int{}, q: map[string]bool{}, att: map[string]int{}, fl: map[string]int{}}
 	w.kube = kubefake.NewSimpleClientset()
 	w.kai = kaifake.NewSimpleClientset()
 	ctx := context.Background()
@@ -212,7 +225,7 @@ func newWorld(sc scenario, pods []string) *world {
 		}
 		_, err = w.kai.SchedulingV2alpha2().PodGroups(ns).Create(ctx, pg, metav1.CreateOptions{})
 		mustCreate(err)
-		_, err = w.kube.CoreV1().Pods(ns).Create(ctx, podObject(p, sc.Req[p], i), metav1.CreateOptions{})
+		_, err = w.kube.CoreV1().Pods(ns).Create(ctx, podObject(p, sc.Req[p], sc.Nd[p], i), metav1.CreateOptions{})
 		mustCreate(err)
 	}
 
@@ -265,6 +278,9 @@ func newWorld(sc scenario, pods []string) *world {
 		WithStatusSubresource(&schedulingv1alpha2.BindRequest{}).
 		WithInterceptorFuncs(interceptor.Funcs{
 			Get: func(ctx context.Context, c client.WithWatch, key client.ObjectKey, obj client.Object, opts ...client.GetOption) error {
+				if w.dead {
+					return errDead
+				}
 				err := c.Get(ctx, key, obj, opts...)
 				if err != nil {
 					switch obj.(type) {
@@ -274,7 +290,28 @@ func newWorld(sc scenario, pods []string) *world {
 				}
 				return err
 			},
+			Patch: func(ctx context.Context, c client.WithWatch, obj client.Object, patch client.Patch, opts ...client.PatchOption) error {
+				if w.dead {
+					return errDead
+				}
+				return c.Patch(ctx, obj, patch, opts...)
+			},
+			Update: func(ctx context.Context, c client.WithWatch, obj client.Object, opts ...client.UpdateOption) error {
+				if w.dead {
+					return errDead
+				}
+				return c.Update(ctx, obj, opts...)
+			},
+			Delete: func(ctx context.Context, c client.WithWatch, obj client.Object, opts ...client.DeleteOption) error {
+				if w.dead {
+					return errDead
+				}
+				return c.Delete(ctx, obj, opts...)
+			},
 			SubResourceCreate: func(ctx context.Context, c client.Client, sub string, obj client.Object, subObj client.Object, opts ...client.SubResourceCreateOption) error {
+				if w.dead {
+					return errDead
+				}
 				if sub != "binding" {
 					return c.SubResource(sub).Create(ctx, obj, subObj, opts...)
 				}
@@ -295,6 +332,9 @@ func newWorld(sc scenario, pods []string) *world {
 				return c.Update(ctx, pod)
 			},
 			SubResourcePatch: func(ctx context.Context, c client.Client, sub string, obj client.Object, patch client.Patch, opts ...client.SubResourcePatchOption) error {
+				if w.dead {
+					return errDead
+				}
 				if _, isBr := obj.(*schedulingv1alpha2.BindRequest); isBr && sub == "status" && w.failStatusPatch {
 					return apierrors.NewServiceUnavailable("verif: injected failure of the BindRequest status patch")
 				}
@@ -306,37 +346,47 @@ func newWorld(sc scenario, pods []string) *world {
 }
 
 func (w *world) newReconciler() {
-	binder := binding.NewBinder(w.bclient, noReservation{w.bclient}, binderplugins.New())
+	binder := binding.NewBinder(w.bclient, noReservation{w}, binderplugins.New())
 	w.reconciler = controllers.NewBindRequestReconciler(w.bclient, w.scheme, record.NewFakeRecorder(10000),
 		&controllers.ReconcilerParams{MaxConcurrentReconciles: 1, RateLimiterBaseDelaySeconds: 1, RateLimiterMaxDelaySeconds: 60},
-		binder, noReservation{w.bclient})
+		binder, noReservation{w})
 }
 
 func (w *world) close() { close(w.stopCh) }
+
+func (w *world) gpus() int {
+	if w.sc.Gpus < 1 {
+		return 1
+	}
+	return w.sc.Gpus
+}
 
 func (w *world) nodeObject() *corev1.Node {
 	rl := corev1.ResourceList{
 		corev1.ResourceCPU:    *resource.NewMilliQuantity(nodeMilliCPU, resource.DecimalSI),
 		corev1.ResourceMemory: resource.MustParse("16Gi"),
 		corev1.ResourcePods:   resource.MustParse("110"),
-		"nvidia.com/gpu":      *resource.NewQuantity(capCentiGPU/100, resource.DecimalSI),
+		"nvidia.com/gpu":      *resource.NewQuantity(int64(w.gpus()), resource.DecimalSI),
 	}
 	return &corev1.Node{
 		// a re-created node gets a new UID: waitInformers compares objects, an identical re-creation would be
 		// indistinguishable from the not-yet-processed deletion of its predecessor
-		ObjectMeta: metav1.ObjectMeta{Name: nodeName, UID: types.UID(fmt.Sprintf("node-uid-%d", w.flips)), Labels: map[string]string{"nvidia.com/gpu.count": "1"}},
+		ObjectMeta: metav1.ObjectMeta{Name: nodeName, UID: types.UID(fmt.Sprintf("node-uid-%d", w.flips)), Labels: map[string]string{"nvidia.com/gpu.count": fmt.Sprintf("%d", w.gpus())}},
 		Status: corev1.NodeStatus{Capacity: rl, Allocatable: rl.DeepCopy(),
 			Conditions: []corev1.NodeCondition{{Type: corev1.NodeReady, Status: corev1.ConditionTrue}}},
 	}
 }
 
-func podObject(name string, req int, idx int) *corev1.Pod {
+func podObject(name string, req int, nd int, idx int) *corev1.Pod {
 	requests := corev1.ResourceList{corev1.ResourceCPU: *resource.NewMilliQuantity(podMilliCPU, resource.DecimalSI)}
 	ann := map[string]string{commonconsts.PodGroupAnnotationForPod: "pg-" + name}
 	if req >= 100 {
 		requests["nvidia.com/gpu"] = *resource.NewQuantity(int64(req/100), resource.DecimalSI)
 	} else {
 		ann[commonconsts.GpuFraction] = fmt.Sprintf("%.2f", float64(req)/100)
+		if nd > 1 {
+			ann[commonconsts.GpuFractionsNumDevices] = fmt.Sprintf("%d", nd)
+		}
 	}
 	return &corev1.Pod{
 		ObjectMeta: metav1.ObjectMeta{Name: name, Namespace: ns, UID: types.UID("pod-uid-" + name), Annotations: ann,
@@ -347,32 +397,92 @@ func podObject(name string, req int, idx int) *corev1.Pod {
 	}
 }
 
-// noReservation stands in for the GPU reservation service (reservation pods are the subject of C11/C17):
-// like the real service it labels a fractional pod with its GPU group, nothing else.
-type noReservation struct{ c client.Client }
+// noReservation stands in for the GPU reservation service (reservation pods are the subject of C11/C17).
+// Like the real service it labels a fractional pod with its GPU groups ONE GROUP PER CALL (runai-gpu-group for
+// a single-device fraction, runai-gpu-group/<group> for a multi-device fraction); the label patch drops group
+// labels that the current BindRequest does not select. Faults: the n-th reservation of a reconcile fails, the
+// rollback (label removal) fails, the binder dies right after a label patch.
+type noReservation struct{ w *world }
+
+var errInjected = errors.New("verif: injected fault")
+var errDead = errors.New("verif: the binder process is dead")
 
 func (noReservation) Sync(context.Context) error                    { return nil }
 func (noReservation) SyncForNode(context.Context, string) error     { return nil }
 func (noReservation) SyncForGpuGroup(context.Context, string) error { return nil }
+
+func groupLabelKeys(labels map[string]string) []string {
+	var keys []string
+	for k := range labels {
+		if k == commonconsts.GPUGroup || strings.HasPrefix(k, commonconsts.MultiGpuGroupLabelPrefix) {
+			keys = append(keys, k)
+		}
+	}
+	return keys
+}
+
 func (r noReservation) ReserveGpuDevice(ctx context.Context, pod *corev1.Pod, _ string, gpuGroup string) (string, error) {
+	w := r.w
+	w.reserveCalls++
+	if w.failReserveAt > 0 && w.reserveCalls == w.failReserveAt {
+		return "-1", fmt.Errorf("reserving GPU group %s: %w", gpuGroup, errInjected)
+	}
+	selected := map[string]bool{}
+	br := &schedulingv1alpha2.BindRequest{}
+	if err := w.bclient.Get(ctx, client.ObjectKeyFromObject(pod), br); err == nil {
+		for _, g := range br.Spec.SelectedGPUGroups {
+			selected[g] = true
+		}
+	}
 	orig := pod.DeepCopy()
 	if pod.Labels == nil {
 		pod.Labels = map[string]string{}
 	}
-	pod.Labels[commonconsts.GPUGroup] = gpuGroup
-	return "0", r.c.Patch(ctx, pod, client.MergeFrom(orig))
+	had := false
+	for _, k := range groupLabelKeys(pod.Labels) {
+		if pod.Labels[k] == gpuGroup {
+			had = true
+		}
+		if !selected[pod.Labels[k]] {
+			delete(pod.Labels, k)
+		}
+	}
+	multi, err := resources.IsMultiFraction(pod)
+	if err != nil {
+		return "-1", err
+	}
+	if multi {
+		k, v := resources.GetMultiFractionGpuGroupLabel(gpuGroup)
+		pod.Labels[k] = v
+	} else {
+		pod.Labels[commonconsts.GPUGroup] = gpuGroup
+	}
+	if err := w.bclient.Patch(ctx, pod, client.MergeFrom(orig)); err != nil {
+		return "-1", err
+	}
+	if w.crashAfterLabel && !had {
+		w.dead = true
+	}
+	return "0", nil
 }
+
 func (r noReservation) RemovePodGpuGroupsConnection(ctx context.Context, pod *corev1.Pod) error {
+	if r.w.failRollback {
+		return fmt.Errorf("removing GPU group labels: %w", errInjected)
+	}
 	cur := &corev1.Pod{}
-	if err := r.c.Get(ctx, client.ObjectKeyFromObject(pod), cur); err != nil {
+	if err := r.w.bclient.Get(ctx, client.ObjectKeyFromObject(pod), cur); err != nil {
 		return client.IgnoreNotFound(err)
 	}
-	if _, ok := cur.Labels[commonconsts.GPUGroup]; !ok {
+	keys := groupLabelKeys(cur.Labels)
+	if len(keys) == 0 {
 		return nil
 	}
 	orig := cur.DeepCopy()
-	delete(cur.Labels, commonconsts.GPUGroup)
-	return r.c.Patch(ctx, cur, client.MergeFrom(orig))
+	for _, k := range keys {
+		delete(cur.Labels, k)
+	}
+	return r.w.bclient.Patch(ctx, cur, client.MergeFrom(orig))
 }
 
 // ---------------------------------------------------------------------------------------------------
@@ -661,7 +771,66 @@ func b2i(b bool) int {
 	return 0
 }
 
+// refreshSlots maintains the GPU group id -> slot map: ids no longer referenced by a BindRequest or a pod label
+// are forgotten, a new id gets the smallest free slot (pods by name, selected groups in list order, then labels).
+func (w *world) refreshSlots() {
+	var order []string
+	seen := map[string]bool{}
+	add := func(g string) {
+		if !seen[g] {
+			seen[g] = true
+			order = append(order, g)
+		}
+	}
+	for _, p := range w.pods {
+		if br := w.getBr(p); br != nil {
+			for _, g := range br.Spec.SelectedGPUGroups {
+				add(g)
+			}
+		}
+		if pod := w.getPod(p); pod != nil {
+			gs := resources.GetGpuGroups(pod)
+			sort.Strings(gs)
+			for _, g := range gs {
+				add(g)
+			}
+		}
+	}
+	used := map[int]bool{}
+	for g, sl := range w.slotOf {
+		if !seen[g] {
+			delete(w.slotOf, g)
+		} else {
+			used[sl] = true
+		}
+	}
+	for _, g := range order {
+		if _, ok := w.slotOf[g]; ok {
+			continue
+		}
+		sl := 1
+		for used[sl] {
+			sl++
+		}
+		w.slotOf[g], used[sl] = sl, true
+	}
+}
+
+func (w *world) slots(groups []string) []int {
+	out := []int{}
+	for _, g := range groups {
+		if sl, ok := w.slotOf[g]; ok {
+			out = append(out, sl)
+		} else {
+			out = append(out, 99) // a group id the store does not know
+		}
+	}
+	sort.Ints(out)
+	return out
+}
+
 func (w *world) projectStore() map[string]any {
+	w.refreshSlots()
 	pods := map[string]any{}
 	for _, p := range w.pods {
 		pod := w.getPod(p)
@@ -671,10 +840,11 @@ func (w *world) projectStore() map[string]any {
 			w.created[p]++
 		}
 		e := map[string]any{"alive": b2i(pod != nil), "bound": 0, "node": "", "ex": b2i(br != nil), "ph": "", "fa": 0, "lim": -1,
-			"sel": "", "gen": w.created[p] % 2, "q": b2i(w.q[p]), "att": w.att[p], "fl": w.fl[p]}
+			"sel": "", "gen": w.created[p] % 2, "q": b2i(w.q[p]), "att": w.att[p], "fl": w.fl[p], "dev": []int{}, "lab": []int{}}
 		if pod != nil {
 			e["bound"] = b2i(pod.Spec.NodeName != "")
 			e["node"] = pod.Spec.NodeName
+			e["lab"] = w.slots(resources.GetGpuGroups(pod))
 		}
 		if br != nil {
 			ph := br.Status.Phase
@@ -687,18 +857,19 @@ func (w *world) projectStore() map[string]any {
 				e["lim"] = int(*br.Spec.BackoffLimit)
 			}
 			e["sel"] = br.Spec.SelectedNode
+			e["dev"] = w.slots(br.Spec.SelectedGPUGroups)
 		}
 		pods[p] = e
 	}
-	return map[string]any{"up": b2i(w.nodeUp()), "flips": w.flips, "restarts": w.restarts, "pods": pods}
+	return map[string]any{"up": b2i(w.nodeUp()), "flips": w.flips, "restarts": w.restarts, "leaks": w.leaks, "drain": b2i(w.draining), "pods": pods}
 }
 
 func noSnap(pods []string) map[string]any {
 	st, on, grp := map[string]any{}, map[string]any{}, map[string]any{}
 	for _, p := range pods {
-		st[p], on[p], grp[p] = "", "", 0
+		st[p], on[p], grp[p] = "", "", []int{}
 	}
-	return map[string]any{"st": st, "on": on, "grp": grp, "idle": 0, "cpu": 0, "node": 0, "taken": 0}
+	return map[string]any{"st": st, "on": on, "grp": grp, "mem": make([]int, memSlots), "whole": 0, "idle": 0, "cpu": 0, "node": 0, "taken": 0}
 }
 
 var noRec = map[string]any{"ran": 0, "err": 0, "rq": 0, "patched": 0, "bind": 0, "msg": ""}
@@ -717,7 +888,7 @@ func (w *world) projectSnapshot(ssn *framework.Session) map[string]any {
 			}
 			st[pi.Name] = pi.Status.String()
 			on[pi.Name] = pi.NodeName
-			grp[pi.Name] = len(pi.GPUGroups)
+			grp[pi.Name] = w.slots(pi.GPUGroups)
 		}
 	}
 	if ni, found := ssn.ClusterInfo.Nodes[nodeName]; found {
@@ -725,6 +896,19 @@ func (w *world) projectSnapshot(ssn *framework.Session) map[string]any {
 		out["idle"] = int(math.Round(idle * 100))
 		out["cpu"] = int(math.Round(ni.Idle.Cpu()))
 		out["node"] = 1
+		out["whole"] = int(math.Round(ni.Idle.GPUs()))
+		mem := out["mem"].([]int)
+		for g, used := range ni.UsedSharedGPUsMemory { // memory charged per GPU group, in percent of one device
+			if used == 0 {
+				continue
+			}
+			pct := int(math.Round(float64(used) * 100 / float64(ni.MemoryOfEveryGpuOnNode)))
+			if sl, ok := w.slotOf[g]; ok && sl <= memSlots {
+				mem[sl-1] += pct
+			} else {
+				mem[memSlots-1] += 1000000 + pct // a group the store does not know: can never match
+			}
+		}
 	}
 	return out
 }
@@ -772,9 +956,16 @@ func (w *world) schedCycle() map[string]any {
 	return snap
 }
 
-func (w *world) reconcile(p string, failBind, failStatusPatch bool) map[string]any {
+// reconcile runs one real Reconcile of the BindRequest of p under the fault `mode`:
+// ok | fail (binding sub-resource fails) | faillabel (2nd GPU group reservation fails, rollback fails) |
+// statuslost (status patch fails) | crash (binder dies right after the next new label; restart).
+func (w *world) reconcile(p string, mode string) map[string]any {
 	w.syncToBinder()
-	w.failBind, w.failStatusPatch = failBind, failStatusPatch
+	w.failBind, w.failStatusPatch = mode == "fail", mode == "statuslost"
+	w.failReserveAt, w.failRollback, w.crashAfterLabel, w.dead, w.reserveCalls = 0, false, mode == "crash", false, 0
+	if mode == "faillabel" {
+		w.failReserveAt, w.failRollback = 2, true
+	}
 	w.bindCalled, w.bindFailed, w.getFailed = false, false, false
 	rvBefore := ""
 	cur := &schedulingv1alpha2.BindRequest{}
@@ -786,18 +977,35 @@ func (w *world) reconcile(p string, failBind, failStatusPatch bool) map[string]a
 	w.getFailed = false
 	res, err := w.reconciler.Reconcile(ctrllog.IntoContext(context.Background(), ctrllog.Log), ctrl.Request{NamespacedName: key})
 	getFailed, bindCalled, bindFailed := w.getFailed, w.bindCalled, w.bindFailed
+	reserveFailed := w.failReserveAt > 0 && w.reserveCalls >= w.failReserveAt
+	died := w.dead
 	w.failBind, w.failStatusPatch = false, false
+	w.failReserveAt, w.failRollback, w.crashAfterLabel, w.dead = 0, false, false, false
 	patched := false
 	after := &schedulingv1alpha2.BindRequest{}
 	if w.bclient.Get(context.Background(), key, after) == nil {
 		patched = existed && after.ResourceVersion != rvBefore
 	}
 	w.syncFromBinder()
+	if mode == "crash" { // whatever the dying process returned is lost; the restarted binder re-queues everything
+		if !died {
+			infra("crash mode: no label was written (scenario %s)", w.sc.ID)
+		}
+		w.newReconciler()
+		w.restarts++
+		for _, x := range w.pods {
+			w.q[x] = w.getBr(x) != nil
+		}
+		return map[string]any{"ran": 1, "err": 0, "rq": 0, "patched": 0, "bind": 0, "msg": "crashed"}
+	}
 	if bindCalled {
 		w.att[p]++
 	}
-	if bindFailed || getFailed {
+	if bindFailed || getFailed || reserveFailed {
 		w.fl[p]++
+	}
+	if reserveFailed {
+		w.leaks++
 	}
 	rq := 0
 	if res.RequeueAfter > 0 {
@@ -825,9 +1033,22 @@ func (w *world) apply(s step) (map[string]any, map[string]any, int) {
 	case "SchedCycle":
 		snap = w.schedCycle()
 	case "BinderAttempt": // only queued keys are reconciled (controller-runtime work queue)
-		rec = w.reconcile(s.P, s.Out == "fail", false)
+		mode := s.Out
+		if mode == "" {
+			mode = "ok"
+		}
+		rec = w.reconcile(s.P, mode)
 	case "BindDoneStatusLost":
-		rec = w.reconcile(s.P, false, true)
+		rec = w.reconcile(s.P, "statuslost")
+	case "BinderCrashAfterLabel":
+		rec = w.reconcile(s.P, "crash")
+	case "StartDrain": // resync of the binder's work queue; from here on no faults
+		w.draining = true
+		w.newReconciler()
+		w.restarts++
+		for _, p := range w.pods {
+			w.q[p] = w.getBr(p) != nil
+		}
 	case "BinderRestart":
 		w.newReconciler()
 		w.restarts++
@@ -863,10 +1084,28 @@ func (w *world) enabled(s step, maxRestarts, maxFlips int) bool {
 	case "SchedCycle":
 		return true
 	case "BinderAttempt":
+		if s.Out == "faillabel" {
+			return w.q[s.P] && w.reach(s.P) && w.sc.Req[s.P] < 100 && w.sc.Nd[s.P] == 2
+		}
 		return w.q[s.P]
 	case "BindDoneStatusLost":
-		br, pod := w.getBr(s.P), w.getPod(s.P)
-		return w.q[s.P] && br != nil && br.Status.Phase != schedulingv1alpha2.BindRequestPhaseSucceeded && pod != nil && pod.Spec.NodeName == "" && w.nodeUp()
+		return w.q[s.P] && w.reach(s.P)
+	case "BinderCrashAfterLabel":
+		if !(w.q[s.P] && w.reach(s.P) && w.sc.Req[s.P] < 100 && w.restarts < maxRestarts) {
+			return false
+		}
+		labelled := map[string]bool{}
+		for _, g := range resources.GetGpuGroups(w.getPod(s.P)) {
+			labelled[g] = true
+		}
+		for _, g := range w.getBr(s.P).Spec.SelectedGPUGroups {
+			if !labelled[g] {
+				return true
+			}
+		}
+		return false
+	case "StartDrain":
+		return !w.draining
 	case "BinderRestart":
 		if w.restarts >= maxRestarts {
 			return false
@@ -890,29 +1129,74 @@ func (w *world) enabled(s step, maxRestarts, maxFlips int) bool {
 	return false
 }
 
+// reach: would a reconcile of p get as far as reserving GPU groups / binding?
+func (w *world) reach(p string) bool {
+	br, pod := w.getBr(p), w.getPod(p)
+	return br != nil && br.Status.Phase != schedulingv1alpha2.BindRequestPhaseSucceeded && pod != nil && pod.Spec.NodeName == "" && w.nodeUp()
+}
+
+// drain: the environment becomes fault-free. Orphaned BindRequests are garbage collected, the binder's queue is
+// resynced, then rounds of {successful reconcile of every queued key, scheduler cycle} until a whole round
+// changes nothing (bounded). Returns 1 if the system came to rest.
+func (w *world) drain(emit func(step)) int {
+	for _, p := range w.pods {
+		if w.getBr(p) != nil && w.getPod(p) == nil {
+			emit(step{N: "GcBr", P: p})
+		}
+	}
+	emit(step{N: "StartDrain"})
+	for round := 0; round < 8; round++ {
+		before, _ := json.Marshal(w.projectStore())
+		for _, p := range w.pods {
+			if w.q[p] {
+				emit(step{N: "BinderAttempt", P: p, Out: "ok"})
+			}
+		}
+		emit(step{N: "SchedCycle"})
+		after, _ := json.Marshal(w.projectStore())
+		if string(before) == string(after) {
+			return 1
+		}
+	}
+	return 0
+}
+
 // ---------------------------------------------------------------------------------------------------
 func runScenario(sc scenario, pods []string, tw *tracefmt.Writer, rnd *rand.Rand, randomLen int) {
 	w := newWorld(sc, pods)
 	defer w.close()
-	req := map[string]any{}
+	req, nd := map[string]any{}, map[string]any{}
 	for _, p := range pods {
 		req[p] = sc.Req[p]
+		nd[p] = 1
+		if sc.Nd[p] > 1 {
+			nd[p] = sc.Nd[p]
+		}
 	}
 	seq := 0
-	tw.Emit(map[string]any{"ev": "Scenario", "id": sc.ID, "lim": sc.Lim, "req": req, "seq": seq, "p": "", "out": "", "skip": 0,
-		"st": w.projectStore(), "snap": noSnap(pods), "rec": noRec})
+	line := func(ev, p, out string, skip, conv int, snap, rec map[string]any) {
+		tw.Emit(map[string]any{"ev": ev, "id": sc.ID, "lim": sc.Lim, "gpus": w.gpus(), "req": req, "nd": nd, "seq": seq, "p": p, "out": out,
+			"skip": skip, "conv": conv, "st": w.projectStore(), "snap": snap, "rec": rec})
+	}
+	line("Scenario", "", "", 0, 0, noSnap(pods), noRec)
 	emit := func(s step) {
 		snap, rec, skip := w.apply(s)
 		seq++
-		tw.Emit(map[string]any{"ev": s.N, "id": sc.ID, "lim": sc.Lim, "req": req, "seq": seq, "p": s.P, "out": s.Out, "skip": skip,
-			"st": w.projectStore(), "snap": snap, "rec": rec})
+		line(s.N, s.P, s.Out, skip, 0, snap, rec)
+	}
+	finish := func() { // every schedule ends with the fault-free drain and the verdict line of C12_Quiesces
+		conv := w.drain(emit)
+		seq++
+		line("Quiesced", "", "", 0, conv, noSnap(pods), noRec)
 	}
 	if rnd == nil {
 		for _, s := range sc.Steps {
 			emit(s)
 		}
+		finish()
 		return
 	}
+	defer finish()
 	// seeded random schedule over the steps enabled in the real state
 	persistFail := rnd.Intn(4) == 0
 	for i := 0; i < randomLen; i++ {
@@ -930,7 +1214,11 @@ func runScenario(sc scenario, pods []string, tw *tracefmt.Writer, rnd *rand.Rand
 		add(step{N: "NodeAdded"}, 3)
 		for _, p := range pods {
 			add(step{N: "BinderAttempt", P: p, Out: "fail"}, 6)
+			if w.leaks < 2 {
+				add(step{N: "BinderAttempt", P: p, Out: "faillabel"}, 3)
+			}
 			if !persistFail {
+				add(step{N: "BinderCrashAfterLabel", P: p}, 3)
 				add(step{N: "BinderAttempt", P: p, Out: "ok"}, 3)
 				add(step{N: "BindDoneStatusLost", P: p}, 1)
 			}
@@ -995,12 +1283,16 @@ func main() {
 		lims := []int{-1, 0, 1, 2, 3, 4}
 		reqs := []int{100, 100, 50, 50, 25}
 		for i := 0; i < *random; i++ {
-			sc := scenario{ID: fmt.Sprintf("rnd-%d-%d", *seed, i), Lim: lims[rnd.Intn(len(lims))], Req: map[string]int{}}
+			sc := scenario{ID: fmt.Sprintf("rnd-%d-%d", *seed, i), Lim: lims[rnd.Intn(len(lims))], Gpus: 1 + rnd.Intn(2), Req: map[string]int{}, Nd: map[string]int{}}
 			var pods []string
 			for k := 1; k <= *npods; k++ {
 				p := fmt.Sprintf("p%d", k)
 				pods = append(pods, p)
 				sc.Req[p] = reqs[rnd.Intn(len(reqs))]
+				sc.Nd[p] = 1
+				if sc.Req[p] < 100 && sc.Gpus > 1 && rnd.Intn(2) == 0 {
+					sc.Nd[p] = 2
+				}
 				if k == 1 || rnd.Intn(5) > 0 {
 					sc.Present = append(sc.Present, p)
 				}
